@@ -1,5 +1,5 @@
 (* C05 — the vesting module account is always exactly backed by its pools. *)
-From C4E Require Import Base Vest VestFrame VestProofs SolventProofs VestGenesis VestGenesisProofs.
+From C4E Require Import Base Vest VestFrame VestProofs SolventProofs VestGenesis VestGenesisProofs PoolsKept.
 Open Scope Z_scope.
 
 (* Solvent w: pool owners are distinct keys, the module account is a blocked address, its balance in
@@ -76,3 +76,11 @@ Theorem C05_accepted_genesis_is_backed :
   B = all_pools_sum (vs_pools s) /\ pools_ok (vs_pools s) /\ NoDup (map fst (vs_pools s)).
 Proof. exact accepted_genesis_is_backed. Qed.
 Print Assumptions C05_accepted_genesis_is_backed.
+
+(* a pool, once stored, is stored for ever: over any history of vesting messages (any signers, any payloads, accepted or rejected)
+   and time steps, the names of an owner's pools at any point are a prefix of the names afterwards — so what a pool still locks
+   always has a record standing for it *)
+Theorem C05_stored_pools_are_never_dropped :
+  forall ops w o, exists extra, pool_names (run w ops) o = pool_names w o ++ extra.
+Proof. exact run_keeps_pool_names. Qed.
+Print Assumptions C05_stored_pools_are_never_dropped.
